@@ -103,7 +103,7 @@ PROPS = {
     "C08": {
         "modules": ["PgBifrost.Props.C08"],
         "components": ["filter", "clifilter", "e2e"],
-        "required_theorems": ["PgBifrost.Props.C08.filter_iff", "PgBifrost.Props.C08.cli_filter_correct"],
+        "required_theorems": ["PgBifrost.Props.C08.filter_iff", "PgBifrost.Props.C08.cli_filter_correct", "PgBifrost.Props.C08.filter_as_in_source"],
         "assumptions": ["regexp matching is Go's regexp (parameter of the model)", "at most one of the four options is given",
                         "a TRUNCATE of several tables is filtered on the relation text as test_decoding prints it (the whole list)"],
     },
@@ -123,7 +123,8 @@ PROPS = {
         "components": ["marshal"],
         "required_theorems": ["PgBifrost.Props.C10.marshal_decision_table_partial", "PgBifrost.Props.C10.marshal_quoted_toast_witness",
                               "PgBifrost.Props.C10.marshal_fields_equal", "PgBifrost.Props.C10.lsn_format_roundtrip",
-                              "PgBifrost.Props.C10.marshal_history_independent", "PgBifrost.Props.C10.marshal_pool_independent"],
+                              "PgBifrost.Props.C10.marshal_history_independent", "PgBifrost.Props.C10.marshal_pool_independent",
+                              "PgBifrost.Props.C10.marshal_columns_as_in_source"],
         "partial": "full decision table false on the unchanged tree (finding F5, quoted 'unchanged-toast-datum' text; pinned by the "
                    "repository's own tests, recorded): proved for changes without such a literal, witness theorem for the rest; history "
                    "independence of the CODE rests on marshal_pool_independent (pool-level model) plus the correspondence (sequences "
